@@ -1042,7 +1042,8 @@ theorem C10_lockstep_uplink_exact (s : Sys F) (connId : Nat) (data : List UInt8)
 
 /-- What "the model's step corresponds to the reference machine's step(s) on the abstraction" means,
 event by event.  (Audit round 2 tightened the `uplink` and `hk` clauses: see the comments inside; the older,
-weaker readings are `C10_lockstep_uplink` / `C10_lockstep_hk_flush`.) -/
+weaker readings are `C10_lockstep_uplink` / `C10_lockstep_hk_flush`.)  A reload of the link set (`Ev.reload`) is no
+reference event: no output, the retained links' windows unchanged and in order, 20000 for every fresh link. -/
 def LockStep (s : Sys F) : Ev → Prop
   | .client now pkt => pkt ≠ [] →
     let r := rstep (absRoute s now) (.route ((Codec.getSrtSequenceNumberS pkt).map toI32))
@@ -1118,6 +1119,13 @@ def LockStep (s : Sys F) : Ev → Prop
     windowsOf (step s .syncTimeout).1 = windowsOf s ∧
     ∀ now, absRoute (step s .syncTimeout).1 now = absRoute s now ∧
       absSent (step s .syncTimeout).1 now = absSent s now
+  -- `apply_connection_changes` (`Ev.reload`) is no reference event and makes no routing choice (it has no output
+  -- at all): the window vector afterwards is the windows of the RETAINED links (address still desired),
+  -- unchanged and in their order, followed by 20000 for every freshly created link
+  | .reload now addrs outs =>
+    (step s (.reload now addrs outs)).2 = {} ∧
+    ∃ k, windowsOf (step s (.reload now addrs outs)).1 =
+      (retained s.links addrs).map (·.core.window) ++ List.replicate k 20000
 
 /-- `sync_conn_timeout` changes neither the windows nor the reference abstraction of the state. -/
 theorem sync_abs (s : Sys F) :
@@ -1188,6 +1196,16 @@ theorem C10_lockstep_step (B : Nat) (s : Sys F) (e : Ev) (h : RunInv B s) (hB : 
   | failBind c => rfl
   | stamp idx w ld cb ct => exact stamp_abs s idx w ld cb ct
   | syncTimeout => exact sync_abs s
+  | reload rnow raddrs routs =>
+    refine ⟨rfl, (createConnections rnow (neededAddrs s.links raddrs) routs : List (FLink F)).length, ?_⟩
+    show (retained s.links raddrs ++ createConnections rnow (neededAddrs s.links raddrs) routs).map _ = _
+    rw [List.map_append]
+    congr 1
+    rw [List.eq_replicate_iff]
+    refine ⟨List.length_map _, fun b hb => ?_⟩
+    obtain ⟨l, hl, rfl⟩ := List.mem_map.1 hb
+    obtain ⟨id, a, -, -, rfl⟩ := mem_createConnections hl
+    rfl
 
 omit [Scalar F] in
 /-- `RunInv`, `KeepsMode`, `runS`, spelled out (definition check). -/
